@@ -631,6 +631,21 @@ func SetSchema(openAPIField map[string]string, schema []byte, reset bool) error 
 
 	version, versionProvided := openAPIField["version"]
 
+	if reset {
+		// A reset starts a new, independent selection. Unless both the previous
+		// and the new selection are the default built-in schema, drop whatever
+		// was parsed before: definitions of a custom schema (or of another
+		// built-in version) must not leak into the next selection.
+		wasDefault := customSchema == nil &&
+			(kubernetesOpenAPIVersion == "" || kubernetesOpenAPIVersion == kubernetesOpenAPIDefaultVersion)
+		isDefault := schema == nil && (version == "" || version == kubernetesOpenAPIDefaultVersion)
+		if !wasDefault || !isDefault {
+			globalSchema = openapiData{noUseBuiltInSchema: globalSchema.noUseBuiltInSchema}
+			customSchema = nil
+			kubernetesOpenAPIVersion = ""
+		}
+	}
+
 	// use custom schema
 	if schema != nil {
 		if versionProvided {
